@@ -544,12 +544,82 @@ pub fn run_kill_case(case: &KillCase, dir: &Path) -> CaseResult {
 		r.map_err(|f| Failure::new(format!("kill:after-recovery:{}", f.sig), format!("child killed after {acked_total} acknowledged commits, recovered at prefix {p}: {}", f.detail)))?;
 	}
 	out.count(&format!("acked_minus_recovered:{}", (acked_total as i64 - p as i64).clamp(-1, 4)), 1);
+	if target == 0 {
+		// not even the READY line was awaited: the kill may land inside the creation of the database
+		out.label("killed-while-opening-or-before-first-commit");
+	}
 	if !done && acked_total < total {
 		out.label("killed-mid-history");
 	} else {
 		out.label("killed-after-last-commit");
 	}
 	out.nontrivial = true;
+	Ok(out)
+}
+
+/// A process that stops while the database is being CREATED: the only files written outside
+/// the log are the tables initialised eagerly at creation (the header table of a btree column),
+/// by memory copies without a file operation in between, so the injector cannot stop there.
+/// The states such a stop leaves are built directly: every table file that exists after a
+/// creation without commits is (variant 0) left alone, (1) zeroed completely = file created and
+/// sized, nothing written yet, (2) zeroed in its first 16 bytes = entries written, table header
+/// (written last) not yet. The directory must open, be empty, and work.
+#[derive(Clone, Debug, Serialize, Deserialize)]
+pub struct CreationCase {
+	pub sc: Scenario,
+	pub variants: Vec<u8>,
+}
+
+pub fn run_creation_case(case: &CreationCase, dir: &Path) -> CaseResult {
+	use std::os::unix::fs::FileExt;
+	let mut out = CaseOut::default();
+	let sc = &case.sc;
+	let db_dir = dir.join("db");
+	let _ = std::fs::remove_dir_all(&db_dir);
+	{
+		let mut it = Interp::new(&sc.cfg, &db_dir, Interp::universe_of(sc));
+		it.open()?;
+		it.close();
+	}
+	let mut touched = 0;
+	for (i, (name, size)) in file_sizes(&db_dir).into_iter().filter(|(n, _)| n.starts_with("table_")).enumerate() {
+		let v = case.variants.get(i % case.variants.len().max(1)).cloned().unwrap_or(1) % 3;
+		let zero = match v {
+			0 => 0,
+			1 => size,
+			_ => 16.min(size),
+		};
+		if zero > 0 {
+			let f = std::fs::OpenOptions::new().write(true).open(db_dir.join(&name)).map_err(|e| Failure::new("harness-io", e.to_string()))?;
+			let z = vec![0u8; 1 << 16];
+			let mut off = 0u64;
+			while off < zero {
+				let n = ((zero - off) as usize).min(z.len());
+				f.write_all_at(&z[..n], off).map_err(|e| Failure::new("harness-io", e.to_string()))?;
+				off += n as u64;
+			}
+			touched += 1;
+			out.label(if v == 1 { "table-file-sized-not-written" } else { "table-header-not-written" });
+		}
+	}
+	let mut it = Interp::new(&sc.cfg, &db_dir, Interp::universe_of(sc));
+	it.check_every_op = true;
+	let r: Res<()> = (|| {
+		it.open()?;
+		it.check_reads(true)?;
+		for op in &sc.ops {
+			it.step(op)?;
+		}
+		it.step(&Op::Drain)?;
+		it.check_reads(true)?;
+		it.step(&Op::Reopen)?;
+		it.check_reads(true)?;
+		it.close();
+		crate::layout::check_dir(&it.cfg, &it.dir, Some(&it)).map_err(|e| Failure::new(format!("layout:{}", e.sig), e.detail))?;
+		Ok(())
+	})();
+	r.map_err(|f| Failure::new(format!("creation-interrupted:{}", f.sig), format!("database whose creation was interrupted ({touched} eagerly initialised table file(s) incomplete): {}", f.detail)))?;
+	out.nontrivial = touched > 0;
 	Ok(out)
 }
 
@@ -568,14 +638,23 @@ fn run(ctx: &Ctx) {
 	}
 	// kill mode: real worker threads, SIGKILL at a generated moment (any instant, not only the
 	// library's file-operation sites)
-	let n = scaled(ctx, 280, 14_000);
+	let n = scaled(ctx, 1_600, 40_000);
 	ctx.run_prop_shrink(
 		"kill",
 		n,
 		30,
-		(kill_scenario(), any::<u16>(), prop_oneof![Just(0u16), 0u16..2000, 0u16..30000]).prop_map(|(sc, after_acks, delay_us)| KillCase { sc, after_acks, delay_us }),
+		(kill_scenario(), prop_oneof![1 => Just(0u16), 6 => any::<u16>()], prop_oneof![Just(0u16), 0u16..2000, 0u16..30000]).prop_map(|(sc, after_acks, delay_us)| KillCase { sc, after_acks, delay_us }),
 		run_kill_case,
-	);
+	) && {
+		let n = scaled(ctx, 600, 12_000);
+		ctx.run_prop_shrink(
+			"creation",
+			n,
+			60,
+			(crash_scenario(3, 3, 8, true, 20_000), proptest::collection::vec(0u8..3, 1..4)).prop_map(|(sc, variants)| CreationCase { sc, variants }),
+			run_creation_case,
+		)
+	};
 }
 
 fn replay(ctx: &Ctx, path: &Path) -> Result<(), Failure> {
@@ -585,6 +664,11 @@ fn replay(ctx: &Ctx, path: &Path) -> Result<(), Failure> {
 		let (_s, case): (String, KillCase) = load_replay(path).map_err(|e| Failure::new("bad-replay", e))?;
 		let dir = ctx.case_dir();
 		return guarded(|| run_kill_case(&case, &dir)).map(|_| ())
+	}
+	if v.get("sub").and_then(|s| s.as_str()) == Some("creation") {
+		let (_s, case): (String, CreationCase) = load_replay(path).map_err(|e| Failure::new("bad-replay", e))?;
+		let dir = ctx.case_dir();
+		return guarded(|| run_creation_case(&case, &dir)).map(|_| ())
 	}
 	let (_sub, case): (String, CrashCase) = load_replay(path).map_err(|e| Failure::new("bad-replay", e))?;
 	let dir = ctx.case_dir();
